@@ -293,8 +293,28 @@ Definition show_tmpdone (args : list str) : str :=
   | _ => bs "?args"
   end.
 
+(* ---- dispatch.panic: two events against a wildcard recorder and a handler that panics ------- *)
+
+(* kind ("fg" / "bg" / "tmp"), cmd.  With a recover function a panic is a return that tells
+   the recover function; AddTmp's wrapper does not reach finish.  The table is unchanged. *)
+Definition show_panic (args : list str) : str :=
+  match args with
+  | kind :: cmd :: _ =>
+    let bg := negb (streqb kind (bs "fg")) in
+    let tmp := streqb kind (bs "tmp") in
+    let ev := if streqb (go_upper cmd) star then bs "FOO" else go_upper cmd in
+    let (t0, _) := register empty_table false false star (uid_str 0) (mkH 0 false) in
+    let (t1, _) := register t0 false bg cmd (uid_str 1) (mkH 1 tmp) in
+    let once := dispatch_ids t1 (mkEv ev false) in
+    let cnt (h : N) := (2 * length (filter (fun x => N.eqb x h) once))%nat in
+    bs "recovered=" ++ show_nat (cnt 1) ++ bs ";delivered=" ++ show_nat (cnt 0)
+      ++ bs ";panicker=" ++ show_nat (cnt 1)
+  | _ => bs "?args"
+  end.
+
 Definition run_C06 (suite : str) (args : list str) : option str :=
   if streqb suite (bs "dispatch.table") then Some (show_table_ops args)
   else if streqb suite (bs "dispatch.trace") then Some (show_trace args)
   else if streqb suite (bs "dispatch.tmpdone") then Some (show_tmpdone args)
+  else if streqb suite (bs "dispatch.panic") then Some (show_panic args)
   else None.
